@@ -49,8 +49,11 @@ MetaDirs ==
           {Hid(F("a.txt")), F("b.txt"), D(".cap"), D("sub")},
           {F("a.txt"), F(".secret"), D(".git"), D("sub")}}
 \* metadata-free directories every suite lists (colliding titles, dot-file + dot-directory)
+\* (... and names that differ only in letter case: any case-folding comparison makes them tie)
 PlainExtras == {{F("notes.txt"), F("notes.pdf"), F("a.txt"), D("sub")},
-                {F("a.txt"), F(".secret"), D(".git"), D("sub")}}
+                {F("a.txt"), F(".secret"), D(".git"), D("sub")},
+                {F("README"), F("readme"), F("Readme"), F("a.txt")},
+                {F("Zebra.txt"), F("zebra.txt"), D("SUB"), D("sub")}}
 
 MkDir(s, kids) ==
     [sb |-> IF s.sel = "/" THEN "" ELSE s.sel, handler |-> DataLists[s.list].handler, ign |-> s.ign,
@@ -92,8 +95,11 @@ WellFormed == WellFormedDir(d)
 ExactLiteral   == pc = "done" => ExactClause(d, p.out.listing) = "ok"      \* DirHandler lists dot-files
 W_NothingHidden == ~(pc = "done" /\ Names(d) \ Visible(d) # {} /\ Visible(d) # {})
 
+\* the scope is part of the case analysis: selectorbase "" (document root) vs "/d"
 SuitesQuick ==
     {[sel |-> "/d", list |-> "default", ign |-> "shipped", nprobes |-> 1, base |-> "plain", meta |-> TRUE],
+     [sel |-> "/", list |-> "default", ign |-> "shipped", nprobes |-> 1, base |-> "one", meta |-> FALSE],
+     [sel |-> "/", list |-> "dir", ign |-> "shipped", nprobes |-> 1, base |-> "one", meta |-> FALSE],
      [sel |-> "/d", list |-> "dir", ign |-> "shipped", nprobes |-> 1, base |-> "plain", meta |-> FALSE],
      [sel |-> "/d", list |-> "dir", ign |-> "buck", nprobes |-> 1, base |-> "plain", meta |-> FALSE]}
 SuitesThorough == SuitesQuick \cup
